@@ -129,6 +129,9 @@ class Authenticator:
         target can be any object and will be evaluated by evaluate_target(auth_token, action, target)
         """
         can_do = True
+        if self.is_enabled and auth_token and auth_token.get("internal"):
+            # a token the relay made for its own service events (never built from client input)
+            return True
         if self.is_enabled:
             if action in self.actions:
                 auth_token = auth_token or {}
